@@ -36,6 +36,9 @@ EXTRA_FAULTS = {
                       ("sizePolicy.verticalPolicy", "QSlider.TicksBelow"), ("sizePolicy.horizontalPolicy", "Qt.Vertical"),
                       ("focusPolicy", "%BOOL% ? Qt.PlainText : Qt.RichText"), ("layoutDirection", "%BOOL% ? Qt.Horizontal : Qt.Vertical")],
     "dynamic-to-unwritable": [("width", "%INT%"), ("isActiveWindow", "%BOOL%")],
+    # objects that exist only in the .ui (spacers): a non-constant value can take effect nowhere
+    "dynamic-on-spacer": [("orientation", "%BOOL% ? Qt.Horizontal : Qt.Vertical"), ("sizeHint.width", "%INT%"), ("sizeHint.height", "%INT% + 1"),
+                          ("sizeType", "%BOOL% ? QSizePolicy.Fixed : QSizePolicy.Expanding")],
 }
 
 
@@ -164,6 +167,8 @@ def judge_accepted(v, cat, d, r, stats):
 
 def plant_extra(rng, doc, kind):
     objs = [o for o in doc.objects() if o.kind in ("widget", "menu") and o.cls not in ("QMenu",)]
+    if kind == "dynamic-on-spacer":
+        objs = [o for o in doc.objects() if o.kind == "spacer"]
     if not objs:
         return None
     ids = getattr(doc, "sources", None) or {"INT": [], "STR": [], "BOOL": []}
